@@ -298,7 +298,10 @@ def main():
     seed = a.seed if a.seed is not None else seed_from_env()
     sys.path.insert(0, VERIF)
     try:
-        rc = run(a.pid.upper(), a.tier if a.tier in ('quick', 'thorough') else 'quick', seed, a.replay)
+        # two runs of one property share .build/cases/<id>: serialise them
+        from .util import flock
+        with flock('check_' + a.pid.upper()):
+            rc = run(a.pid.upper(), a.tier if a.tier in ('quick', 'thorough') else 'quick', seed, a.replay)
     except Exception:
         traceback.print_exc()
         rp = write_replay(a.pid.upper(), {'property': a.pid.upper(), 'kind': 'check-crashed', 'trace': traceback.format_exc()}, 'broken')
